@@ -1,7 +1,7 @@
 #!/bin/bash
 # Thorough tier, cheapest first; one line per check. Usage: ./run_thorough.sh [per-check timeout s]
 cd "$(dirname "$0")"
-for id in C18 C19 C20 C06 C02 C01 C15 C16 C17 C12 C11 C08 C13 C14 C09 C07 C03 C04 C05; do
+for id in ${THOROUGH_IDS:-C18 C19 C20 C06 C02 C01 C15 C16 C17 C12 C11 C08 C13 C14 C09 C07 C03 C04 C05}; do
   s=$(date +%s)
   timeout ${1:-5400} ./check $id --tier thorough > thorough_$id.log 2>&1
   rc=$?
